@@ -87,7 +87,7 @@ def run_scenario(chk, sc, cfgseed, ndims):
     ap = gamma.make_ap("A", hkeys.concrete_names(sc["names"], cfgseed), classes, layouts, ndims=ndims, time=cfg.time)
     if cfgseed % 5 == 0:
         # an index space that does not start at 0 (the domain boxes of the header give both corners)
-        gamma.shift_indices(ap, [[-8, -3, -16], [-4, 0, -1], [5, -2, 0]][(cfgseed // 5) % 3])
+        gamma.shift_indices(ap, [[-8, -3, -16], [-4, 0, -1], [5, -2, 0], [1000, 20000, 300000], [-100000, 4096, 65536]][(cfgseed // 5) % 5])
     d = os.path.join(chk.tmp_reuse(), "p")
     os.makedirs(os.path.dirname(d))
     reg = gamma.write_plotfile(d, ap, cfg)
